@@ -406,7 +406,13 @@ Fixpoint range_keys (h : list (yaml * yaml)) (st en : option N) : outcome (optio
 
 (* a policy, as far as modelled: the address ranges it adds (first, last),
    the option codes applied, the Ipv4Subnet lengths in it and below *)
-Record pol := { pl_ranges : list (N * N); pl_applied : list N; pl_subnets : list N }.
+Record pol := {
+  pl_ranges : list (N * N);      (* what apply-address / apply-range / apply-subnet of THIS policy add *)
+  pl_applied : list N;
+  pl_subnets : list N;
+  pl_has : bool;                 (* the policy names addresses at all (`addresses` is Some) *)
+  pl_below : list (N * N)        (* every range of every policy below it *)
+}.
 
 Fixpoint policy_keys (parse_policies : yaml -> outcome (list pol))
   (h : list (yaml * yaml)) (p : pol) : outcome pol :=
@@ -420,15 +426,15 @@ Fixpoint policy_keys (parse_policies : yaml -> outcome (list pol))
       else if str_is ks "match-hardware-address" then do _ <- parse_string_hwaddr v ; policy_keys parse_policies r p
       else if str_is ks "match-subnet" then
         do sn <- match_subnet ip4_parse v ;
-        policy_keys parse_policies r {| pl_ranges := pl_ranges p; pl_applied := pl_applied p; pl_subnets := snd sn :: pl_subnets p |}
+        policy_keys parse_policies r {| pl_ranges := pl_ranges p; pl_applied := pl_applied p; pl_subnets := snd sn :: pl_subnets p; pl_has := pl_has p; pl_below := pl_below p |}
       else match strip_prefix ks "match-" with
       | Some name =>
         do g <- parse_generic name v ;
-        policy_keys parse_policies r {| pl_ranges := pl_ranges p; pl_applied := pl_applied p; pl_subnets := snd g ++ pl_subnets p |}
+        policy_keys parse_policies r {| pl_ranges := pl_ranges p; pl_applied := pl_applied p; pl_subnets := snd g ++ pl_subnets p; pl_has := pl_has p; pl_below := pl_below p |}
       | None =>
         if str_is ks "apply-address" then
           do a <- req (parse_string_ip4 v) ;
-          policy_keys parse_policies r {| pl_ranges := (a, a) :: pl_ranges p; pl_applied := pl_applied p; pl_subnets := pl_subnets p |}
+          policy_keys parse_policies r {| pl_ranges := (a, a) :: pl_ranges p; pl_applied := pl_applied p; pl_subnets := pl_subnets p; pl_has := true; pl_below := pl_below p |}
         else if str_is ks "apply-default-lease" || str_is ks "apply-max-lease" then
           do _ <- req (parse_duration v) ; policy_keys parse_policies r p
         else if str_is ks "apply-range" then
@@ -438,7 +444,7 @@ Fixpoint policy_keys (parse_policies : yaml -> outcome (list pol))
             match st, en with
             | Some a, Some b =>
               policy_keys parse_policies r {| pl_ranges := (if a <=? b then [(a, b)] else []) ++ pl_ranges p;
-                                              pl_applied := pl_applied p; pl_subnets := pl_subnets p |}
+                                              pl_applied := pl_applied p; pl_subnets := pl_subnets p; pl_has := true; pl_below := pl_below p |}
             | _, _ => Err E_missing
             end
           | _ => Err E_type
@@ -446,25 +452,49 @@ Fixpoint policy_keys (parse_policies : yaml -> outcome (list pol))
         else if str_is ks "apply-subnet" then
           do rg <- apply_subnet ip4_parse v ;
           policy_keys parse_policies r {| pl_ranges := match rg with Some x => [x] | None => [] end ++ pl_ranges p;
-                                          pl_applied := pl_applied p; pl_subnets := pl_subnets p |}
+                                          pl_applied := pl_applied p; pl_subnets := pl_subnets p;
+                                          pl_has := true; pl_below := pl_below p |}
         else match strip_prefix ks "apply-" with
         | Some name =>
           do g <- parse_generic name v ;
           if existsb (N.eqb (fst g)) (pl_applied p) then Err E_key          (* "Duplicate specification" *)
           else policy_keys parse_policies r {| pl_ranges := pl_ranges p; pl_applied := fst g :: pl_applied p;
-                                               pl_subnets := snd g ++ pl_subnets p |}
+                                               pl_subnets := snd g ++ pl_subnets p; pl_has := pl_has p; pl_below := pl_below p |}
         | None =>
           if str_is ks "policies" then
             do subs <- parse_policies v ;
             policy_keys parse_policies r {| pl_ranges := pl_ranges p; pl_applied := pl_applied p;
-                                            pl_subnets := flat_map pl_subnets subs ++ pl_subnets p |}
+                                            pl_subnets := flat_map pl_subnets subs ++ pl_subnets p; pl_has := pl_has p; pl_below := flat_map (fun q => pl_ranges q ++ pl_below q) subs ++ pl_below p |}
           else Err E_key
         end
       end
     end
   end.
 
-Definition pol0 : pol := {| pl_ranges := []; pl_applied := []; pl_subnets := [] |}.
+(* the pool of a policy (parse_policy's closing step): the addresses it names
+   minus every address named anywhere below it; as a number of addresses.
+   Ranges are inclusive; [norm] sorts them by start and merges overlaps. *)
+Fixpoint ins_range (x : N * N) (l : list (N * N)) : list (N * N) :=
+  match l with
+  | [] => [x]
+  | y :: r => if fst x <=? fst y then x :: l else y :: ins_range x r
+  end.
+Fixpoint merge_sorted (l : list (N * N)) (cur : option (N * N)) : list (N * N) :=
+  match l with
+  | [] => match cur with Some c => [c] | None => [] end
+  | (a, b) :: r =>
+    match cur with
+    | None => merge_sorted r (Some (a, b))
+    | Some (c, d) => if a <=? d + 1 then merge_sorted r (Some (c, N.max b d)) else (c, d) :: merge_sorted r (Some (a, b))
+    end
+  end.
+Definition norm (l : list (N * N)) : list (N * N) := merge_sorted (fold_right ins_range [] l) None.
+Definition count_ranges (l : list (N * N)) : N := fold_right (fun x n => snd x - fst x + 1 + n) 0 l.
+Definition pool_size (p : pol) : option N :=
+  if pl_has p then Some (count_ranges (norm (pl_ranges p ++ pl_below p)) - count_ranges (norm (pl_below p)))
+  else None.
+
+Definition pol0 : pol := {| pl_ranges := []; pl_applied := []; pl_subnets := []; pl_has := false; pl_below := [] |}.
 
 Fixpoint parse_policies (fuel : nat) (y : yaml) : outcome (list pol) :=
   match fuel with
